@@ -114,5 +114,11 @@ func VH_C11_bindings() {
 	hc.DisableScheduleBindings()
 	zz.Assert(len(rec.removed) == n, "each_binding_unregistered_once")
 	zz.Assert(len(handle(tick)) == 0, "no_task_after_disable")
+	// a hook that is switched off and on again gets its schedules back
+	if zz.Bool("enabled_again") {
+		hc.EnableScheduleBindings()
+		zz.Assert(len(rec.added) == 2*n, "each_binding_registered_again")
+		zz.Assert(len(handle(tick)) == want, "tasks_again_after_re_enable")
+	}
 	zz.Reach("end")
 }
